@@ -259,6 +259,13 @@ def comprehensionise(stmts: List[ast.stmt], _loads: Optional[Dict[str, int]] = N
                             dotted(leaf.value.func.value) == nm and leaf.value.func.attr == ("add" if kind == "set" else "append") and len(leaf.value.args) == 1 and \
                             not uses_self(leaf.value.args[0]):
                         comp = (ast.SetComp if kind == "set" else ast.ListComp)(elt=leaf.value.args[0], generators=gens)
+                    elif kind in ("set", "list") and isinstance(leaf, ast.Expr) and isinstance(leaf.value, ast.Call) and isinstance(leaf.value.func, ast.Attribute) and \
+                            dotted(leaf.value.func.value) == nm and leaf.value.func.attr == ("update" if kind == "set" else "extend") and len(leaf.value.args) == 1 and \
+                            not uses_self(leaf.value.args[0]) and not isinstance(leaf.value.args[0], (ast.GeneratorExp, ast.ListComp, ast.SetComp)):
+                        # X.update(Y) for every ...  ==  {e for ... for e in Y}
+                        el = _fresh("elem")
+                        gens2 = gens + [ast.comprehension(target=ast.Name(id=el, ctx=ast.Store()), iter=leaf.value.args[0], ifs=[], is_async=0)]
+                        comp = (ast.SetComp if kind == "set" else ast.ListComp)(elt=ast.Name(id=el, ctx=ast.Load()), generators=gens2)
                     elif kind == "dict" and isinstance(leaf, ast.Assign) and len(leaf.targets) == 1 and isinstance(leaf.targets[0], ast.Subscript) and \
                             dotted(leaf.targets[0].value) == nm and not uses_self(leaf.value) and not uses_self(leaf.targets[0].slice):
                         comp = ast.DictComp(key=leaf.targets[0].slice, value=leaf.value, generators=gens)
